@@ -166,7 +166,7 @@ theorem AwFrom.handleCmd (s : Sys) (i : Wid) (c : Cmd) :
     repeat' split
     all_goals first
       | exact AwFrom.refl _ _
-      | (simp only [setWk_wk, upd_same]
+      | (simp only [noteExit_wk, setWk_wk, upd_same]
          rename_i x hx _ _ _ _
          exact AwFrom.updProc (q := p) (y' := { x with result := none, fn := fn, pc := 0, acc := [] }) rfl
            (fun t v hm => Or.inl ⟨x, hx, hm⟩))
@@ -174,7 +174,7 @@ theorem AwFrom.handleCmd (s : Sys) (i : Wid) (c : Cmd) :
     simp only [handleCmdWith]
     split
     · exact AwFrom.refl _ _
-    · simp only [setWk_wk, upd_same]
+    · simp only [noteExit_wk, setWk_wk, upd_same]
       exact AwFrom.updProc (q := p) (y' := Proc.fresh fn (p :: regs)) (by simp [WorkerSt.setProc])
         (fun t v hm => by simp [Proc.fresh] at hm)
   | notifySpawn caller newPid =>
@@ -207,7 +207,7 @@ theorem AwFrom.handleCmd (s : Sys) (i : Wid) (c : Cmd) :
     repeat' split
     all_goals first
       | exact AwFrom.refl _ _
-      | (simp only [setWk_wk, upd_same]; exact AwFrom.of_procs rfl _)
+      | (simp only [noteExit_wk, setWk_wk, upd_same]; exact AwFrom.of_procs rfl _)
 
 /-! ### environment side -/
 
@@ -354,6 +354,7 @@ theorem TCore.envStep1 {s : Sys} (h : TCore s) (htr : Truthful s) (w : Wid) : TC
         · simp only [upd_other _ _ _ _ e] at hp'; exact Or.inl hp'
     | procResults a rs => exact h.handleProcResultsPop htr hq
     | resultResp req r => exact h0.congrEnv rfl rfl (fun a pa hp => Or.inl hp)
+    | exited p => exact h0
 
 /-! ### worker side -/
 
@@ -388,14 +389,14 @@ theorem AwFrom.execStep (s : Sys) (i : Wid) (fuel : Nat) (ordQ : List Pid) :
   have lift : ∀ {w' : WorkerSt} {e}, AwFrom (s.wk i) w' noExtra → AwFrom (s.wk i) w' e :=
     fun h => h.weaken (fun _ _ _ hf => hf.elim)
   split
-  · simp only [setWk_wk, upd_same]; exact lift h0
+  · simp only [noteExit_wk, setWk_wk, upd_same]; exact lift h0
   · rename_i cur rest _
     have h1 : AwFrom (s.wk i) { w0 with queue := rest } noExtra := h0.trans (AwFrom.of_procs rfl _)
     split
-    · simp only [setWk_wk, upd_same]; exact lift h1
+    · simp only [noteExit_wk, setWk_wk, upd_same]; exact lift h1
     · rename_i x hx
       split
-      · simp only [setWk_wk, upd_same]
+      · simp only [noteExit_wk, setWk_wk, upd_same]
         have hf := AwFrom.finish { w0 with queue := rest } cur x ordQ (fun t v hm => ⟨x, hx, hm⟩)
         have hres := finish_resultOf_cur { w0 with queue := rest } cur x ordQ
         refine (lift h1).trans (hf.weaken ?_)
@@ -410,20 +411,20 @@ theorem AwFrom.execStep (s : Sys) (i : Wid) (fuel : Nat) (ordQ : List Pid) :
           intro t v hm
           exact Or.inl ⟨x, hx, hsl t v hm⟩
         cases out with
-        | cont => simp only [setWk_wk, upd_same]; exact lift (h2 _ _ _)
+        | cont => simp only [noteExit_wk, setWk_wk, upd_same]; exact lift (h2 _ _ _)
         | send t m => simp only [pushEvt_wk, setWk_wk, upd_same]; exact lift (h2 _ _ _)
         | spawn fn regs => simp only [pushEvt_wk, setWk_wk, upd_same]; exact lift (h2 _ _ _)
         | awaitInit ts => simp only [pushEvt_wk, setWk_wk, upd_same]; exact lift (h2 _ _ _)
-        | blocked => simp only [setWk_wk, upd_same]; exact lift (h2 _ _ _)
+        | blocked => simp only [noteExit_wk, setWk_wk, upd_same]; exact lift (h2 _ _ _)
         | failed =>
-          simp only [setWk_wk, upd_same]
+          simp only [noteExit_wk, setWk_wk, upd_same]
           have hf := AwFrom.finish { w0 with queue := rest, procs := upd w0.procs cur (some x') } cur x' ordQ
             (fun t v hm => ⟨x', by simp, hm⟩)
           have hres := finish_resultOf_cur { w0 with queue := rest, procs := upd w0.procs cur (some x') } cur x' ordQ
           refine (lift (h2 rest w0.spawning w0.selecting)).trans (hf.weaken ?_)
           rintro _ t v ⟨rfl, hv⟩; rw [hres, hv]
         | done =>
-          simp only [setWk_wk, upd_same]
+          simp only [noteExit_wk, setWk_wk, upd_same]
           have hf := AwFrom.finish { w0 with queue := rest, procs := upd w0.procs cur (some x') } cur x' ordQ
             (fun t v hm => ⟨x', by simp, hm⟩)
           have hres := finish_resultOf_cur { w0 with queue := rest, procs := upd w0.procs cur (some x') } cur x' ordQ
